@@ -213,3 +213,120 @@ Proof.
   change (Forall2 same_abs (c_vals c) (c_vals c')) in Hvals.
   rewrite (sval_abs c c' 0 Hvals), (sval_abs c c' 1 Hvals), Hop. reflexivity.
 Qed.
+
+(* ------------------------------------------------------------------ histories with the invariant derived *)
+
+(* The same notion with nothing assumed about the *state* of the operands: a step only requires
+   that its scalar arguments are well-formed (`args_okb`, `kind_okb`, the length bound `lens_okb`)
+   and that the operands have one of the crate's word types (a fact about Rust types, not about
+   data).  That the operands are canonical is *derived*, by induction over the history. *)
+Inductive Hist : bvx -> Prop :=
+| Hist_step c items x :
+    In (c_op c) all_ops ->
+    kind_okb (c_kind c) = true -> args_okb c = true -> lens_okb c = true ->
+    forallb (fun v => std_widthb (xw v)) (c_vals c) = true ->
+    spec_case c <> SFree ->
+    Forall Hist (c_vals c) ->
+    run_case c = Ok items -> In (IV x) items -> Hist x.
+
+Lemma forallb_goodb l :
+  Forall (fun v => canonb v = true) l -> forallb (fun v => std_widthb (xw v)) l = true -> forallb goodb l = true.
+Proof.
+  induction 1 as [|v l Hv _ IH]; cbn [forallb]; [reflexivity|].
+  rewrite andb_true_iff. intros [Hw Hl]. unfold goodb at 1. rewrite Hv, Hw. cbn [andb]. apply IH. exact Hl.
+Qed.
+
+Fixpoint hist_canon x (H : Hist x) {struct H} : canonb x = true.
+Proof.
+  destruct H as [c items x Hin Hk Ha Hl Hw Hfree Hops Hrun Hx].
+  assert (Forall (fun v => canonb v = true) (c_vals c)) as Hc.
+  { revert Hops. generalize (c_vals c) as l.
+    refine (fix go l (Hops : Forall Hist l) {struct Hops} : Forall (fun v => canonb v = true) l :=
+              match Hops with
+              | Forall_nil _ => Forall_nil _
+              | Forall_cons v Hv Hr => Forall_cons v (hist_canon v Hv) (go _ Hr)
+              end). }
+  assert (case_okb c = true) as Hok.
+  { unfold case_okb. rewrite (forallb_goodb _ Hc Hw), Hk, Ha, Hl. reflexivity. }
+  exact (step_canon c items x Hin Hok Hfree Hrun Hx).
+Qed.
+
+(* every step of such a history is therefore inside the master theorem *)
+Lemma hist_step_in_scope c :
+  kind_okb (c_kind c) = true -> args_okb c = true -> lens_okb c = true ->
+  forallb (fun v => std_widthb (xw v)) (c_vals c) = true ->
+  Forall Hist (c_vals c) -> case_okb c = true.
+Proof.
+  intros Hk Ha Hl Hw Hops. unfold case_okb.
+  rewrite (forallb_goodb (c_vals c)); [rewrite Hk, Ha, Hl; reflexivity| |exact Hw].
+  apply Forall_forall. intros v Hv. rewrite Forall_forall in Hops. apply hist_canon. apply Hops. exact Hv.
+Qed.
+
+(* ------------------------------------------------------------------ observers cannot tell histories apart *)
+
+Lemma res_ok_SN_inv n r : res_ok (SOk [SN n]) r = true -> r = Ok [IN n].
+Proof.
+  destruct r as [items| | |]; cbn [res_ok]; try discriminate.
+  destruct items as [|i [|j r]]; cbn [items_ok]; try discriminate.
+  - destruct i as [x|m|l]; cbn [item_ok]; try discriminate.
+    rewrite andb_true_r. intros H. apply N.eqb_eq in H. subst m. reflexivity.
+  - rewrite andb_false_r. discriminate.
+Qed.
+
+(* Two cases that differ only in operands with equal type, length and bits (whatever storage,
+   spare capacity or history these have): each one's result satisfies the other's specification ... *)
+Theorem indistinguishable c c' :
+  In (c_op c) all_ops ->
+  c_op c = c_op c' -> c_form c = c_form c' -> c_prof c = c_prof c' -> c_kind c = c_kind c' ->
+  c_args c = c_args c' -> c_lists c = c_lists c' ->
+  Forall2 (fun x y => kind_of x = kind_of y /\ abs x = abs y) (c_vals c) (c_vals c') ->
+  case_okb c = true -> case_okb c' = true ->
+  prop_case c (run_case c') = true /\ prop_case c' (run_case c) = true.
+Proof.
+  intros Hin Hop Hform Hprof Hkind Hargs Hlists Hvals Hok Hok'.
+  assert (In (c_op c') all_ops) as Hin' by (rewrite <- Hop; exact Hin).
+  split.
+  - rewrite (prop_case_abs c c' (run_case c') Hop Hform Hprof Hkind Hargs Hlists Hvals). apply master; assumption.
+  - rewrite <- (prop_case_abs c c' (run_case c) Hop Hform Hprof Hkind Hargs Hlists Hvals). apply master; assumption.
+Qed.
+
+(* ... and an observer whose specified answer is a number gives literally the same answer on both *)
+Corollary observers_agree c c' n :
+  In (c_op c) all_ops -> c_op c <> 37 ->
+  c_op c = c_op c' -> c_form c = c_form c' -> c_prof c = c_prof c' -> c_kind c = c_kind c' ->
+  c_args c = c_args c' -> c_lists c = c_lists c' ->
+  Forall2 (fun x y => kind_of x = kind_of y /\ abs x = abs y) (c_vals c) (c_vals c') ->
+  case_okb c = true -> case_okb c' = true ->
+  spec_case c = SOk [SN n] -> run_case c = Ok [IN n] /\ run_case c' = Ok [IN n].
+Proof.
+  intros Hin H37 Hop Hform Hprof Hkind Hargs Hlists Hvals Hok Hok' Hs.
+  destruct (indistinguishable c c' Hin Hop Hform Hprof Hkind Hargs Hlists Hvals Hok Hok') as [H1 _].
+  pose proof (master c Hin Hok) as H0.
+  rewrite prop_case_res in H0, H1 by assumption. rewrite Hs in H0, H1.
+  split; apply res_ok_SN_inv; assumption.
+Qed.
+
+Theorem hist_invariant x : Hist x -> canonb x = true.
+Proof. exact (hist_canon x). Qed.
+
+(* non-vacuity: Bvd::zeros(3), push(One), then `|= 0xF0u8` is such a history *)
+Ltac hist_step c items Hops :=
+  apply (Hist_step c items);
+  [ apply in_all_ops; vm_compute; reflexivity
+  | vm_compute; reflexivity | vm_compute; reflexivity | vm_compute; reflexivity | vm_compute; reflexivity
+  | vm_compute; discriminate
+  | Hops
+  | vm_compute; reflexivity
+  | left; reflexivity ].
+
+Example hist_example : exists x, Hist x /\ xlen x = 4.
+Proof.
+  pose (x1 := XD (mkwv [0] 3)).
+  assert (Hist x1) as H1.
+  { hist_step (mkcase 1 0 Release KD [3] [] []) [IV x1] ltac:(constructor). }
+  pose (x2 := XD (mkwv [8] 4)).
+  assert (Hist x2) as H2.
+  { hist_step (mkcase 41 0 Release KD [1] [x1] []) [IV x2] ltac:(constructor; [exact H1|constructor]). }
+  exists x2. split; [|reflexivity].
+  hist_step (mkcase 64 4 Release KD [8; 240] [x2] []) [IV x2] ltac:(constructor; [exact H2|constructor]).
+Qed.
